@@ -68,7 +68,43 @@ def pow_identity_with_null(case, i, detail=None):
     return any(v == "NULL" for r in pre["rows"] for v in r.values())
 
 
-PREDS = {f.__name__: f for f in (pow_identity_with_null, join_full_not_same_named, join_has_differently_named_keys,
+def _find_tag(e, tag, op=None):
+    if not isinstance(e, list):
+        return []
+    out = []
+    if len(e) >= 2 and e[0] == tag and (op is None or e[1] == op):
+        out.append(e)
+    for x in e:
+        if isinstance(x, list):
+            out += _find_tag(x, tag, op)
+    return out
+
+
+def _cols_of(e):
+    if not isinstance(e, list):
+        return set()
+    if len(e) == 2 and e[0] == "c":
+        return {e[1]}
+    out = set()
+    for x in e:
+        out |= _cols_of(x)
+    return out
+
+
+def as_int64_of_null(case, i, detail=None):
+    """the step casts an expression to int64 and a column that expression reads holds a null"""
+    st = _step(case, i)
+    if st[0] != "extend":
+        return False
+    hits = [h for a in st[1] for h in _find_tag(a[1], "uq", "as_int64")]
+    if not hits:
+        return False
+    pre = stack_tops(case, i)[-1]
+    cols = set().union(*[_cols_of(h) for h in hits])
+    return any(r.get(c) == "NULL" for r in pre["rows"] for c in cols)
+
+
+PREDS = {f.__name__: f for f in (as_int64_of_null, pow_identity_with_null, join_full_not_same_named, join_has_differently_named_keys,
                                  right_join_differently_named_keys, join_with_empty_side)}
 
 
